@@ -3,6 +3,7 @@ import TxdbusModel.Proofs.Wire.TopLevel
 import TxdbusModel.Proofs.Wire.Normal
 import TxdbusModel.Proofs.Wire.ValidWF
 import TxdbusModel.Proofs.Wire.ConfTop
+import TxdbusModel.Proofs.Wire.FuelFree
 /-!
 Property C01 - encoding then decoding any conforming value returns the same value.
 
@@ -199,6 +200,215 @@ theorem C01_marshal_arity (fuel : Nat) (ts : List Ty) (pv : PyVal) (off : Nat) (
     ∃ items, Code.topItems pv = .ok items ∧ items.length = ts.length :=
   Code.marshal_ok_arity fuel ts pv off le fds r h
 
+/-! ### Extension 2026-09-30: the round trip without a premise on the depth of the value
+
+`C01_roundtrip` and its variants ask for `depthAll vs ≤ fuel` - a bound on the nesting of the VALUE, which a caller of
+the model cannot read off its inputs.  Below the same statements with fuels computed from the signature and the bytes:
+the decoder at `Cost.codeFuel sig data off = |sig| + (|data| - off) + 1` (the fuel that `Properties/C05.lean:
+code_fuel_adequate` proves sufficient for HOSTILE data as well, and the fuel the driver now runs `unmarshal` with),
+the encoder at `|sig| + |bytes it produces|`.  Both follow from `Spec.depth_le_sig_add_length` (Proofs/Wire/FuelFree):
+every nesting level of an encodable value is paid for by a character of its type or by a byte of its encoding.
+No side condition is added (the route through C05's `code_fuel_independent` would ask the descriptors to be scalars).
+The encoder's bound mentions its own output because, through variants, the nesting of the value is not a function of
+the signature; for a signature without `v` the bound `tyDepthAll ts ≤ |sig|` depends on the signature alone
+(`C01_roundtrip_noVariant_fuel_free`).  There is no cost model of `marshal`, hence no statement about `Code.marshal`'s
+fuel on NON-conforming values. -/
+
+/-- `C01_roundtrip` at ANY fuels above the computable bounds (the strongest form; the next theorem is the instance
+without fuel variables). -/
+theorem C01_roundtrip_any_fuel (le : Bool) (ts : List Ty) (pv : PyVal) (items : List PyVal) (vs : List Val)
+    (fdl : List PyVal) (off : Nat) (bs pre suf : Bytes) (fuelM fuelU : Nat)
+    (hts : allWF ts = true)
+    (hitems : Code.topItems pv = .ok items)
+    (hrep : Code.RepFields fdl vs true ts items 0 fdl.length)
+    (hkeys : Code.KeysOKList items)
+    (henc : Spec.encodeAll Code.genAlign (endianOf le) ts vs off = some bs)
+    (hpre : pre.length = off)
+    (hfuelM : (renderAll ts).length + bs.length ≤ fuelM)
+    (hfuelU : Cost.codeFuel (renderAll ts) (pre ++ bs ++ suf) off ≤ fuelU) :
+    Code.marshal fuelM (renderAll ts) pv off le (some []) = .ok (bs.length, bs, some fdl) ∧
+    Code.unmarshal fuelU (renderAll ts) (pre ++ bs ++ suf) off le (some fdl) =
+      .ok (bs.length, Code.plainList items) :=
+  ⟨(C01_roundtrip le ts pv items vs fdl off bs pre suf fuelM hts hitems hrep hkeys henc hpre
+      (Nat.le_trans (Spec.depthAll_le_sized _ _ ts vs off bs henc) hfuelM)).1,
+   (C01_roundtrip le ts pv items vs fdl off bs pre suf fuelU hts hitems hrep hkeys henc hpre
+      (Nat.le_trans (Nat.le_of_lt (Spec.depthAll_le_codeFuel _ _ ts vs off bs pre suf henc hpre)) hfuelU)).2⟩
+
+/-- C01 with no fuel left in the statement: the decoder is run at `Cost.codeFuel (render ts) data off`, the encoder at
+`|render ts| + |bytes|`.  Hypotheses as `C01_roundtrip` minus `hfuel`. -/
+theorem C01_roundtrip_fuel_free (le : Bool) (ts : List Ty) (pv : PyVal) (items : List PyVal) (vs : List Val)
+    (fdl : List PyVal) (off : Nat) (bs pre suf : Bytes)
+    (hts : allWF ts = true)
+    (hitems : Code.topItems pv = .ok items)
+    (hrep : Code.RepFields fdl vs true ts items 0 fdl.length)
+    (hkeys : Code.KeysOKList items)
+    (henc : Spec.encodeAll Code.genAlign (endianOf le) ts vs off = some bs)
+    (hpre : pre.length = off) :
+    Code.marshal ((renderAll ts).length + bs.length) (renderAll ts) pv off le (some []) = .ok (bs.length, bs, some fdl) ∧
+    Code.unmarshal (Cost.codeFuel (renderAll ts) (pre ++ bs ++ suf) off) (renderAll ts) (pre ++ bs ++ suf) off le
+      (some fdl) = .ok (bs.length, Code.plainList items) :=
+  C01_roundtrip_any_fuel le ts pv items vs fdl off bs pre suf _ _ hts hitems hrep hkeys henc hpre
+    (Nat.le_refl _) (Nat.le_refl _)
+
+/-- The same for every VALID signature (`sigValid`). -/
+theorem C01_roundtrip_valid_fuel_free (le : Bool) (ts : List Ty) (pv : PyVal) (items : List PyVal) (vs : List Val)
+    (fdl : List PyVal) (off : Nat) (bs pre suf : Bytes)
+    (hts : sigValid ts = true)
+    (hitems : Code.topItems pv = .ok items)
+    (hrep : Code.RepFields fdl vs true ts items 0 fdl.length)
+    (hkeys : Code.KeysOKList items)
+    (henc : Spec.encodeAll Code.genAlign (endianOf le) ts vs off = some bs)
+    (hpre : pre.length = off) :
+    Code.marshal ((renderAll ts).length + bs.length) (renderAll ts) pv off le (some []) = .ok (bs.length, bs, some fdl) ∧
+    Code.unmarshal (Cost.codeFuel (renderAll ts) (pre ++ bs ++ suf) off) (renderAll ts) (pre ++ bs ++ suf) off le
+      (some fdl) = .ok (bs.length, Code.plainList items) :=
+  C01_roundtrip_fuel_free le ts pv items vs fdl off bs pre suf (sigValid_allWF ts hts) hitems hrep hkeys henc hpre
+
+/-- A signature without `v`: the encoder's fuel is a function of the SIGNATURE alone - its nesting depth
+`tyDepthAll ts` (`≤ |render ts|`: `tyDepthAll_le_render`); the decoder at `Cost.codeFuel` as before. -/
+theorem C01_roundtrip_noVariant_fuel_free (le : Bool) (ts : List Ty) (pv : PyVal) (items : List PyVal) (vs : List Val)
+    (fdl : List PyVal) (off : Nat) (bs pre suf : Bytes)
+    (hts : allWF ts = true) (hnv : allNoVariant ts = true)
+    (hitems : Code.topItems pv = .ok items)
+    (hrep : Code.RepFields fdl vs true ts items 0 fdl.length)
+    (hkeys : Code.KeysOKList items)
+    (henc : Spec.encodeAll Code.genAlign (endianOf le) ts vs off = some bs)
+    (hpre : pre.length = off) :
+    Code.marshal (tyDepthAll ts) (renderAll ts) pv off le (some []) = .ok (bs.length, bs, some fdl) ∧
+    Code.unmarshal (Cost.codeFuel (renderAll ts) (pre ++ bs ++ suf) off) (renderAll ts) (pre ++ bs ++ suf) off le
+      (some fdl) = .ok (bs.length, Code.plainList items) :=
+  ⟨(C01_roundtrip le ts pv items vs fdl off bs pre suf _ hts hitems hrep hkeys henc hpre
+      (Spec.depth_fields_ty _ _ vs ts off bs henc hnv)).1,
+   (C01_roundtrip_fuel_free le ts pv items vs fdl off bs pre suf hts hitems hrep hkeys henc hpre).2⟩
+
+/-- `C01_roundtrip_conf` (second formulation of conformance) without the fuel premise. -/
+theorem C01_roundtrip_conf_fuel_free (le : Bool) (ts : List Ty) (pv : PyVal) (items : List PyVal) (vs : List Val)
+    (fdl : List PyVal) (off : Nat) (bs pre suf : Bytes)
+    (hts : allWF ts = true)
+    (hitems : Code.structFields pv = some items)
+    (hrep : Code.ConfFields fdl vs true ts items 0 fdl.length)
+    (hkeys : Code.KeysOKBList items)
+    (henc : Spec.encodeAll Code.genAlign (endianOf le) ts vs off = some bs)
+    (hpre : pre.length = off) :
+    Code.marshal ((renderAll ts).length + bs.length) (renderAll ts) pv off le (some []) = .ok (bs.length, bs, some fdl) ∧
+    Code.unmarshal (Cost.codeFuel (renderAll ts) (pre ++ bs ++ suf) off) (renderAll ts) (pre ++ bs ++ suf) off le
+      (some fdl) = .ok (bs.length, Code.plainBList items) :=
+  ⟨(C01_roundtrip_conf le ts pv items vs fdl off bs pre suf _ hts hitems hrep hkeys henc hpre
+      (Spec.depthAll_le_sized _ _ ts vs off bs henc)).1,
+   (C01_roundtrip_conf le ts pv items vs fdl off bs pre suf _ hts hitems hrep hkeys henc hpre
+      (Nat.le_of_lt (Spec.depthAll_le_codeFuel _ _ ts vs off bs pre suf henc hpre))).2⟩
+
+/-- `C01_roundtrip_checked` (executable hypotheses: what the driver operation `specenc` certifies for every generated
+conforming case) without the fuel premise: every hypothesis left can be evaluated, and so can both sides of the
+conclusion. -/
+theorem C01_roundtrip_checked_fuel_free (le : Bool) (n : Nat) (ts : List Ty) (pv : PyVal) (vs : List Val)
+    (fdl : List PyVal) (off : Nat) (bs pre suf : Bytes)
+    (hts : allWF ts = true)
+    (hchk : Code.toSpecTop n ts pv = some (vs, fdl))
+    (hkeys : Code.keysOKCheck pv = true)
+    (henc : Spec.encodeAll Code.genAlign (endianOf le) ts vs off = some bs)
+    (hpre : pre.length = off) :
+    ∃ items, Code.structFields pv = some items ∧
+      Code.marshal ((renderAll ts).length + bs.length) (renderAll ts) pv off le (some []) =
+        .ok (bs.length, bs, some fdl) ∧
+      Code.unmarshal (Cost.codeFuel (renderAll ts) (pre ++ bs ++ suf) off) (renderAll ts) (pre ++ bs ++ suf) off le
+        (some fdl) = .ok (bs.length, Code.plainBList items) := by
+  obtain ⟨items, hitems, hrep⟩ := Code.toSpecTop_sound n ts pv vs fdl hchk
+  have hk := Code.keysOKB_fields pv items hitems (Code.keysOKCheck_sound pv hkeys)
+  exact ⟨items, hitems, C01_roundtrip_conf_fuel_free le ts pv items vs fdl off bs pre suf hts hitems hrep hk henc hpre⟩
+
+/-! Instances: a variant (holding the list `[1, 2]`, inferred `ai`) inside a dict inside an array inside an array -
+signature `aa{sv}h`, values `[[{'k': [1, 2]}], 5]`, little endian, offset 3, bytes before and after. -/
+
+/-- The hypotheses of `C01_roundtrip_checked_fuel_free` hold for it (all by evaluation). -/
+example :
+    let ts : List Ty := [.array (.array (.dict (.basic .s) .variant)), .basic .h]
+    let pv : PyVal := .list [.list [.dict [(.str .plain ['k'], .list [.int .plain 1, .int .plain 2])]], .int .plain 5]
+    let vs : List Val := [.array [.array [.entry (.str [107]) (.variant (.array (.basic .i)) (.array [.int 1, .int 2]))]],
+      .int 0]
+    allWF ts = true ∧ Code.toSpecTop 20 ts pv = some (vs, [.int .plain 5]) ∧ Code.keysOKCheck pv = true ∧
+      Spec.encodeAll Code.genAlign (endianOf true) ts vs 3 =
+        some [0, 32, 0, 0, 0, 24, 0, 0, 0, 0, 0, 0, 0, 1, 0, 0, 0, 107, 0, 2, 97, 105, 0, 0, 0, 8, 0, 0, 0, 1, 0, 0, 0,
+          2, 0, 0, 0, 0, 0, 0, 0] := by
+  refine ⟨by decide, rfl, rfl, by decide +kernel⟩
+
+/-- ... so the theorem yields both equations, with the fuels it computes (`8 + 41 = 49` for the encoder,
+`codeFuel = 8 + (46 - 3) + 1 = 52` for the decoder; the value is 6 levels deep). -/
+example :
+    let sig := ['a', 'a', '{', 's', 'v', '}', 'h']
+    let pv : PyVal := .list [.list [.dict [(.str .plain ['k'], .list [.int .plain 1, .int .plain 2])]], .int .plain 5]
+    let bs : Bytes := [0, 32, 0, 0, 0, 24, 0, 0, 0, 0, 0, 0, 0, 1, 0, 0, 0, 107, 0, 2, 97, 105, 0, 0, 0, 8, 0, 0, 0, 1, 0,
+      0, 0, 2, 0, 0, 0, 0, 0, 0, 0]
+    let data : Bytes := [9, 9, 9] ++ bs ++ [0xaa, 0x55]
+    Code.marshal 49 sig pv 3 true (some []) = .ok (41, bs, some [.int .plain 5]) ∧
+    Code.unmarshal (Cost.codeFuel sig data 3) sig data 3 true (some [.int .plain 5]) =
+      .ok (41, [.list [.dict [(.str .plain ['k'], .list [.int .plain 1, .int .plain 2])]], .int .plain 5]) := by
+  intro sig pv bs data
+  obtain ⟨items, hitems, hm, hu⟩ := C01_roundtrip_checked_fuel_free true 20
+    [.array (.array (.dict (.basic .s) .variant)), .basic .h] pv
+    [.array [.array [.entry (.str [107]) (.variant (.array (.basic .i)) (.array [.int 1, .int 2]))]], .int 0]
+    [.int .plain 5] 3 bs [9, 9, 9] [0xaa, 0x55] (by decide) rfl rfl (by decide +kernel) rfl
+  have hi : items = [.list [.dict [(.str .plain ['k'], .list [.int .plain 1, .int .plain 2])]], .int .plain 5] := by
+    have : Code.structFields pv = some [.list [.dict [(.str .plain ['k'], .list [.int .plain 1, .int .plain 2])]],
+      .int .plain 5] := rfl
+    rw [this] at hitems
+    exact (Option.some.inj hitems).symm
+  subst hi
+  exact ⟨hm, hu⟩
+
+/-- The same two equations by evaluating the code model directly (the kernel runs `Code.marshal` / `Code.unmarshal`
+at the fuels of the theorem), and: at fuel 5 - one below the depth of the value - both answer `RecursionError`. -/
+example :
+    let sig := ['a', 'a', '{', 's', 'v', '}', 'h']
+    let pv : PyVal := .list [.list [.dict [(.str .plain ['k'], .list [.int .plain 1, .int .plain 2])]], .int .plain 5]
+    let bs : Bytes := [0, 32, 0, 0, 0, 24, 0, 0, 0, 0, 0, 0, 0, 1, 0, 0, 0, 107, 0, 2, 97, 105, 0, 0, 0, 8, 0, 0, 0, 1, 0,
+      0, 0, 2, 0, 0, 0, 0, 0, 0, 0]
+    let data : Bytes := [9, 9, 9] ++ bs ++ [0xaa, 0x55]
+    (match Code.marshal 49 sig pv 3 true (some []) with
+     | .ok (n, b, _) => n == 41 && b == bs
+     | .error _ => false) = true ∧
+    (match Code.unmarshal (Cost.codeFuel sig data 3) sig data 3 true (some [.int .plain 5]) with
+     | .ok (n, vs) => n == 41 && vs.length == 2
+     | .error _ => false) = true ∧
+    Cost.codeFuel sig data 3 = 52 ∧
+    (match Code.marshal 5 sig pv 3 true (some []) with
+     | .error e => e == .recursion
+     | .ok _ => false) = true ∧
+    (match Code.unmarshal 5 sig data 3 true (some [.int .plain 5]) with
+     | .error e => e == .recursion
+     | .ok _ => false) = true := by
+  decide +kernel
+
+/-- `C01_roundtrip_fuel_free` itself (the `Rep` formulation): its hypotheses hold for `aa{sv}` with `[[{'k': 'hi'}]]`. -/
+example :
+    let ts : List Ty := [.array (.array (.dict (.basic .s) .variant))]
+    let items : List PyVal := [.list [.dict [(.str .plain ['k'], .str .plain ['h', 'i'])]]]
+    let vs : List Val := [.array [.array [.entry (.str [107]) (.variant (.basic .s) (.str [104, 105]))]]]
+    allWF ts = true ∧ Code.topItems (.list items) = .ok items ∧
+      Code.RepFields [] vs true ts items 0 0 ∧ Code.KeysOKList items ∧
+      (Spec.encodeAll Code.genAlign (endianOf true) ts vs 3).isSome = true := by
+  refine ⟨by decide, rfl, ?_, ?_, by decide +kernel⟩
+  · refine ⟨_, _, _, _, 0, rfl, rfl, ?_, ⟨rfl, rfl, rfl⟩⟩
+    simp only [Code.Rep]
+    refine ⟨_, _, rfl, trivial, rfl, ?_⟩
+    refine ⟨_, _, 0, rfl, ?_, ⟨rfl, rfl⟩⟩
+    simp only [Code.Rep]
+    refine ⟨_, _, rfl, trivial, rfl, ?_⟩
+    refine ⟨_, _, 0, rfl, ?_, ⟨rfl, rfl⟩⟩
+    simp only [Code.Rep]
+    refine ⟨_, _, _, _, 0, rfl, trivial, rfl, ?_, ?_⟩
+    · exact ⟨.s, rfl, Or.inr ⟨by decide, ⟨_, _, rfl, by decide⟩, rfl⟩⟩
+    · simp only [Code.Rep]
+      refine ⟨trivial, rfl, ?_, trivial⟩
+      exact ⟨.s, rfl, Or.inr ⟨by decide, ⟨_, _, rfl, by decide⟩, rfl⟩⟩
+  · simp only [Code.KeysOKList, Code.KeysOK, Code.KeysOKPairs, Code.plainPairs, Code.plain, and_true, true_and,
+      List.map_cons, List.map_nil]
+    exact ⟨[.str ['k']], rfl, by simp⟩
+
+/-- A signature without `v` (`a(ay)`, depth 4): the hypotheses of `C01_roundtrip_noVariant_fuel_free` that are new. -/
+example : allNoVariant [.array (.struct [.array (.basic .y)])] = true ∧
+    tyDepthAll [.array (.struct [.array (.basic .y)])] = 4 := by decide
+
 end Txdbus
 
 #print axioms Txdbus.C01_marshal_arity
@@ -207,3 +417,9 @@ end Txdbus
 #print axioms Txdbus.C01_roundtrip_valid
 #print axioms Txdbus.Spec.decode_encode
 #print axioms Txdbus.C01_roundtrip
+#print axioms Txdbus.C01_roundtrip_any_fuel
+#print axioms Txdbus.C01_roundtrip_fuel_free
+#print axioms Txdbus.C01_roundtrip_valid_fuel_free
+#print axioms Txdbus.C01_roundtrip_noVariant_fuel_free
+#print axioms Txdbus.C01_roundtrip_conf_fuel_free
+#print axioms Txdbus.C01_roundtrip_checked_fuel_free
